@@ -24,7 +24,7 @@ VARIABLES s, used, last
 vars == <<s, used, last>>
 
 BudgetKeys == {"user.release2", "user.release3", "user.rollback", "user.scale", "user.approve", "user.pause", "user.resume",
-               "user.disable", "user.enable", "user.delete", "user.editplan", "user.jump", "user.editidle", "user.deleteidle", "user.release3late", "env.unready", "total"}
+               "user.disable", "user.enable", "user.delete", "user.editplan", "user.jump", "user.editidle", "user.deleteidle", "user.release3late", "user.trdelete", "env.unready", "total"}
 
 ClassOf(a) == IF a \in JumpActs THEN "user.jump" ELSE a
 IsDisturbance(c) == c \in BudgetKeys /\ c \notin {"user.release2", "user.approve", "env.unready", "total"}
@@ -49,6 +49,7 @@ UserEnabled(st, a) ==
        [] a = "user.editplan" -> inProg /\ Len(Plan2) > 0
        [] a = "user.editidle" -> st.ro.phase = "Healthy" /\ ~st.ro.deleting /\ Len(Plan2) > 0
        [] a = "user.deleteidle" -> st.ro.phase = "Healthy" /\ ~st.ro.deleting
+       [] a = "user.trdelete" -> st.tr.used /\ st.tr.exists /\ ~st.tr.deleting
        [] a \in JumpActs -> inProg /\ st.ro.hasSub /\ JumpTarget(a) # st.ro.next
        [] OTHER -> FALSE
 
@@ -60,6 +61,7 @@ TickUseful(st) ==
 EnabledActs(st, u) ==
   (IF st.ro.exists THEN {"ro"} ELSE {})
   \cup (IF st.br.exists THEN {"br"} ELSE {})
+  \cup (IF st.tr.used /\ st.tr.exists THEN {"tr"} ELSE {})
   \cup {a \in {"env.observe", "env.update", "env.ready", "env.scale"} : EnvEnabled(st, a)}
   \cup (IF TickUseful(st) THEN {"tick"} ELSE {})
   \cup {a \in Actions \ {"env.unready"} :
@@ -126,9 +128,9 @@ KF_MidSwitch(st) == st.ghost.midSwitch        \* KF-C05-finalising-cursor-carrie
 
 T(a) == [base |-> a, fault |-> "", panic |-> "", act |-> a]
 
-Inv_C04a == C04a(s)
-Inv_C04b == C04b(s) \/ KF_JumpBack(s)
-Inv_C04c == C04c(s)
+Inv_C04a == StateHolds("C04a", s)
+Inv_C04b == StateHolds("C04b", s) \/ KF_JumpBack(s)
+Inv_C04c == StateHolds("C04c", s)
 Inv_C05  == C05(s) \/ KF_HoldLeft(s) \/ KF_Late(s) \/ KF_DisSup(s) \/ KF_MidSwitch(s)
 Inv_C05tr == C05tr(s)
 Inv_C10b == C10b(s)
